@@ -121,6 +121,9 @@ type Kernel struct {
 	lockReqs  []*lockReq
 	writeReqs []*writeReq
 	wake      chan struct{}
+	seenMutex map[interface{}]bool
+	frozen    map[interface{}]bool // mutexes of a crashed server incarnation: never granted again
+	Epoch     int
 	owners    map[interface{}]*lockReq
 	gnames    map[uint64]string
 	lockSeq   int
@@ -178,6 +181,8 @@ func newKernel(seed uint64, p SchedParams) *Kernel {
 		stubs:     map[string]StubFactory{},
 		udp:       map[string]*UDPSock{},
 		owners:    map[interface{}]*lockReq{},
+		seenMutex: map[interface{}]bool{},
+		frozen:    map[interface{}]bool{},
 		gnames:    map[uint64]string{},
 		mapCalls:  map[string]int{},
 		digest:    1469598103934665603,
@@ -295,6 +300,7 @@ func (k *Kernel) lockHook(m interface{}, site string) {
 	req.gname = name
 	k.lockSeq++
 	req.seq = k.lockSeq
+	k.seenMutex[m] = true
 	k.lockReqs = append(k.lockReqs, req)
 	k.mu.Unlock()
 	k.poke()
@@ -339,6 +345,7 @@ func (k *Kernel) keysHook(site string, n int) []int {
 }
 
 type writeReq struct {
+	dead bool
 	c    *Conn
 	dial string // non-empty: this is a pending outbound dial to that address, not a write
 	ch   chan struct{}
@@ -381,6 +388,35 @@ func (k *Kernel) goroutineBusy(name string) bool {
 		}
 	}
 	return false
+}
+
+// Crash models the death of the server process: everything the current incarnation could still do is
+// frozen for good (its mutexes are never granted again, its sockets are dead, its listeners gone), only
+// the simulated disk survives. A fresh server can then be started in the same bubble.
+func (k *Kernel) Crash() {
+	k.mu.Lock()
+	for m := range k.seenMutex {
+		k.frozen[m] = true
+	}
+	for _, w := range k.writeReqs {
+		w.dead = true
+	}
+	for _, c := range k.conns {
+		c.dead = true
+	}
+	ls := k.listeners
+	k.listeners = map[string]*Listener{}
+	k.stubs = map[string]StubFactory{}
+	k.Epoch++
+	k.mu.Unlock()
+	for _, l := range ls {
+		l.mu.Lock()
+		l.closed = true
+		l.waiting = nil
+		l.cond.Broadcast()
+		l.mu.Unlock()
+	}
+	k.Stats.Faults["server_crash"]++
 }
 
 // ---- tasks: harness-initiated calls into lal run on their own goroutine -------------------------------------------------
@@ -446,7 +482,10 @@ func (k *Kernel) enabledActions() []action {
 	})
 	contended := 0
 	for i, r := range k.lockReqs {
-		if i > 0 && k.lockReqs[i-1].gname == r.gname && k.lockReqs[i-1].site == r.site {
+		if k.frozen[r.m] {
+			continue
+		}
+		if i > 0 && k.lockReqs[i-1].gname == r.gname && k.lockReqs[i-1].site == r.site && !k.frozen[k.lockReqs[i-1].m] {
 			k.Stats.Probes["waiters_ordered_by_creation"]++
 		}
 		if _, held := k.owners[r.m]; held {
@@ -469,6 +508,9 @@ func (k *Kernel) enabledActions() []action {
 		return a.c.id < b.c.id
 	})
 	for i, w := range k.writeReqs {
+		if w.dead || (w.c != nil && w.c.dead) {
+			continue
+		}
 		if w.dial != "" {
 			acts = append(acts, action{kind: "write", wreq: w, key: "dial " + w.dial})
 			continue
@@ -492,6 +534,9 @@ func (k *Kernel) enabledActions() []action {
 		l.mu.Unlock()
 	}
 	for _, c := range k.conns {
+		if c.dead {
+			continue
+		}
 		c.mu.Lock()
 		if !c.closedLocal {
 			if len(c.pending) > 0 && !c.holdInbound {
@@ -641,6 +686,9 @@ func lockClass(site string) string {
 func (k *Kernel) collect() {
 	for i := 0; i < len(k.conns); i++ { // handlers may add conns
 		c := k.conns[i]
+		if c.dead {
+			continue
+		}
 		c.mu.Lock()
 		out := c.out
 		c.out = nil
